@@ -64,4 +64,4 @@ let op_rtgen t =
     model ^ " ## " ^ sp "rtgen %d %s" (List.length b) (hex_of_bytes b) ^ " parse=ok " ^ info_str (M.s_restrict present info)
   else model
 
-let ops : (S.t * (S.t array -> S.t)) list = [ "rtap", op_rtap; "rssi", op_rssi; "rtgen", op_rtgen ]
+let ops : (S.t * (S.t array -> S.t)) list = [ "rtap", op_rtap; "rssi", op_rssi; "rssi_trunc", (fun t -> let r = op_rssi t in "rssi_trunc" ^ S.sub r 4 (S.length r - 4)); "rtgen", op_rtgen ]
